@@ -792,6 +792,11 @@ func (c *mgComp) Run(args []string) string {
 			held = 'S'
 		}
 		return mgReaddRace(k, held)
+	case "pace":
+		if len(args) != 2 {
+			return "bad-op"
+		}
+		return mgPace(args[1])
 	case "run":
 		specs, err := mgParseTargets(args[1:])
 		if err != nil {
@@ -992,6 +997,10 @@ func (c *mgComp) Gen(r *rand.Rand, tier string) []string {
 	if r.Intn(5) == 0 {
 		// Remove in flight while the same name is added again from another goroutine (mg_race.go)
 		seq = append(seq, fmt.Sprintf("readd %d %s", 1+r.Intn(3), []string{"U", "U", "S"}[r.Intn(3)]))
+	}
+	if r.Intn(12) == 0 {
+		// pacing of the retries once sessions keep failing (mg_pace.go)
+		seq = append(seq, "pace "+[]string{"plain", "reconnect", "rt"}[r.Intn(3)])
 	}
 	return append(seq, "end")
 }
